@@ -568,4 +568,91 @@ theorem range_roundtrip (s e : Nat) (h : s ≤ e) : decodeRange (encodeRange s e
       obtain ⟨k, hk⟩ := this
       simp [hk, decodeRange]
 
+def hasChange (xs : List IOp) : Bool := xs.any fun x => !DiffLemmas.isEqualOp x.op
+
+theorem groupLoop_nonempty_of_pending (n : Nat) (rest : List IOp) : ∀ pending,
+    hasChange pending = true → groupLoop n pending rest ≠ [] := by
+  induction rest with
+  | nil =>
+    intro pending h
+    unfold groupLoop
+    split
+    · simp [hasChange] at h
+    · simp [hasChange, DiffLemmas.isEqualOp] at h
+    · simp
+  | cons x rest ih =>
+    intro pending h
+    obtain ⟨op, oi, ni⟩ := x
+    have hp : ∀ y, hasChange (pending ++ [y]) = true := by
+      intro y; simp only [hasChange, List.any_append, Bool.or_eq_true] ; exact Or.inl h
+    cases op with
+    | equal len =>
+      simp only [groupLoop]
+      split
+      · simp
+      · exact ih _ (hp _)
+    | delete k => simp only [groupLoop]; exact ih _ (hp _)
+    | insert k => simp only [groupLoop]; exact ih _ (hp _)
+    | replace k m => simp only [groupLoop]; exact ih _ (hp _)
+
+theorem groupLoop_nonempty_of_rest (n : Nat) (rest : List IOp) : ∀ pending,
+    hasChange rest = true → groupLoop n pending rest ≠ [] := by
+  induction rest with
+  | nil => intro _ h; simp [hasChange] at h
+  | cons x rest ih =>
+    intro pending h
+    obtain ⟨op, oi, ni⟩ := x
+    cases op with
+    | equal len =>
+      have h' : hasChange rest = true := by simpa [hasChange, DiffLemmas.isEqualOp] using h
+      simp only [groupLoop]
+      split
+      · simp
+      · exact ih _ h'
+    | delete k =>
+      simp only [groupLoop]
+      exact groupLoop_nonempty_of_pending n rest _ (by simp [hasChange, DiffLemmas.isEqualOp])
+    | insert k =>
+      simp only [groupLoop]
+      exact groupLoop_nonempty_of_pending n rest _ (by simp [hasChange, DiffLemmas.isEqualOp])
+    | replace k m =>
+      simp only [groupLoop]
+      exact groupLoop_nonempty_of_pending n rest _ (by simp [hasChange, DiffLemmas.isEqualOp])
+
+theorem hasChange_trimHead (n : Nat) (xs : List IOp) : hasChange (trimHead n xs) = hasChange xs := by
+  cases xs with
+  | nil => rfl
+  | cons x xs => obtain ⟨op, oi, ni⟩ := x; cases op <;> simp [trimHead, hasChange, DiffLemmas.isEqualOp]
+
+theorem hasChange_trimLast (n : Nat) (xs : List IOp) : hasChange (trimLast n xs) = hasChange xs := by
+  induction xs with
+  | nil => rfl
+  | cons x xs ih =>
+    cases xs with
+    | nil => obtain ⟨op, oi, ni⟩ := x; cases op <;> simp [trimLast, hasChange, DiffLemmas.isEqualOp]
+    | cons y ys =>
+      simp only [trimLast]
+      simp only [hasChange, List.any_cons] at ih ⊢
+      rw [ih]
+
+/-- a script with a Delete / Insert / Replace yields at least one hunk: something is printed -/
+theorem hunks_nonempty (n : Nat) (xs : List IOp) (old new : List Nat) (h : hasChange xs = true) :
+    hunks n xs old new ≠ [] := by
+  unfold hunks groupOps
+  have hne : xs.isEmpty = false := by cases xs <;> simp_all [hasChange]
+  simp only [hne, Bool.false_eq_true, if_false]
+  rw [filter_groups]
+  have := groupLoop_nonempty_of_rest n (trimLast n (trimHead n xs)) []
+    (by rw [hasChange_trimLast, hasChange_trimHead]; exact h)
+  intro hm
+  exact this (List.map_eq_nil_iff.mp hm)
+
+theorem render_nonempty (text : Nat → String) (hs : List Hunk) (h : hs ≠ []) : (render text hs).length ≠ 0 := by
+  cases hs with
+  | nil => exact absurd rfl h
+  | cons a r =>
+    simp only [render, String.length_append]
+    have : "--- old\n+++ new\n".length = 16 := by decide
+    omega
+
 end StyluaModel.UnifiedLemmas
